@@ -12,6 +12,7 @@
     [segj X Y j x]: the chord through nodes j, j+1 evaluated at x. *)
 From Dino Require Import Base.Ops Base.Sums Base.Inst Base.Ord Model.Interp Thm.Interp.
 From Coq Require Import Reals Qcanon Lra.
+From Dino Require Import Model.ArrDSL Gen.InterpSrc Thm.InterpSrc.
 Local Open Scope F_scope.
 
 Section C17.
@@ -218,6 +219,52 @@ Proof.
   - intros j Hj. destruct j as [|[|[|[|j]]]]; try lia; vm_compute; reflexivity.
 Qed.
 
+(** The model is the source: the array programs of dinosaur/vertical_interpolation.py, transcribed
+    from the AST on every run (Gen/InterpSrc.v, tools/translate/gen_interp.py) into the array DSL of
+    Model/ArrDSL.v with LENGTH-CHECKED elementwise operations, have the lengths and the entries /
+    values of the hand-written Model/Interp.v, for every node count n = m + 2 >= 2, all nodes, data
+    (without missing values) and queries, and every number k of extrapolation rounds.
+    [safe_extrap_xp_src] / [safe_extrap_fp_src] are the loop of _linear_interp_with_safe_extrap applied to
+    the nodes / the data; its final jnp.interp(.., left=nan, right=nan) is pinned textually by the
+    translator (jnp.interp semantics are trusted: [interp_nan]). *)
+Theorem C17_model_is_source {F : Type} {o : Ops F} {Fc : FieldC o}
+    (m k nh : nat) (xpf fpf y lev phi ha hb : nat -> F) (x oro g sp : F) :
+  let n := S (S m) in
+  dot_interp_src x (n, xpf) (n, fpf) = dot_interp n xpf fpf x /\
+  linear_interp_with_linear_extrap_src x (n, xpf) (n, fpf) = lin_extrap n xpf fpf x /\
+  (fst (extrapolate_left_src (n, y)) = S n /\
+   forall i, (i < S n)%nat -> snd (extrapolate_left_src (n, y)) i = extr_left eLF y i) /\
+  (fst (extrapolate_right_src (n, y)) = S n /\
+   forall i, (i < S n)%nat -> snd (extrapolate_right_src (n, y)) i = extr_right eRF n y i) /\
+  (fst (extrapolate_both_src (n, y)) = S (S n) /\
+   forall i, (i < S (S n))%nat -> snd (extrapolate_both_src (n, y)) i = extr_both eLF eRF n y i) /\
+  ((fst (safe_extrap_xp_src k (n, y)) = (n + 2 * k)%nat /\
+    forall i, (i < n + 2 * k)%nat -> snd (safe_extrap_xp_src k (n, y)) i = pad_x k n y i) /\
+   (fst (safe_extrap_fp_src k (n, y)) = (n + 2 * k)%nat /\
+    forall i, (i < n + 2 * k)%nat -> snd (safe_extrap_fp_src k (n, y)) i = pad_x k n y i)) /\
+  surface_pressure_src (n, lev) (n, phi) oro g = surface_pressure n lev phi oro g /\
+  (fst (hyb_sigma_boundaries_src (S nh, ha) (S nh, hb) sp) = S nh /\
+   forall i, snd (hyb_sigma_boundaries_src (S nh, ha) (S nh, hb) sp) i = hyb_sigma_boundaries ha hb sp i) /\
+  (fst (hyb_sigma_centers_src (S nh, ha) (S nh, hb) sp) = nh /\
+   forall i, (i < nh)%nat -> snd (hyb_sigma_centers_src (S nh, ha) (S nh, hb) sp) i = hyb_sigma_centers ha hb sp i).
+Proof.
+  intros n.
+  split; [exact (dot_interp_matches m xpf fpf x)|].
+  split; [exact (lin_extrap_matches m xpf fpf x)|].
+  split; [exact (extrapolate_left_matches m y)|].
+  split; [exact (extrapolate_right_matches m y)|].
+  split; [exact (extrapolate_both_matches m y)|].
+  split; [exact (safe_extrap_matches k m y)|].
+  split; [exact (surface_pressure_matches m lev phi oro g)|].
+  split; [exact (hyb_sigma_boundaries_matches (S nh) ha hb sp)|].
+  exact (hyb_sigma_centers_matches nh ha hb sp).
+Qed.
+
+(** the translator understood every statement it is meant to transcribe (fail closed), and the
+    documented default number of extrapolation cells is 1 *)
+Theorem C17_gen_interp_complete : gen_interp_ok = true /\ safe_extrap_default_n = 1%nat.
+Proof. split; reflexivity. Qed.
+
 Print Assumptions C17_interp_at_nodes.
 Print Assumptions C17_interp_ref_on_segment.
 Print Assumptions C17_interp_affine_exact.
@@ -241,3 +288,5 @@ Print Assumptions C17_nearest_identity_same_grid.
 Print Assumptions C17_dot_interp_eq_ref_R.
 Print Assumptions C17_safe_extrap_window_R.
 Print Assumptions C17_hyps_satisfiable.
+Print Assumptions C17_model_is_source.
+Print Assumptions C17_gen_interp_complete.
